@@ -34,5 +34,15 @@ for h in payload['histories']:
             if h.get('lexrows'):
                 rec['lexicons'] = battery.lexicon_rows()
             steps.append(rec)
-        out.append({'initial': before, 'steps': steps})
+        rec_h = {'initial': before, 'steps': steps}
+        if h.get('final_configs') is not None:
+            import sqlite3
+            rec_h['final_lexicons'] = battery.lexicon_rows()
+            rec_h['final_obs'] = [battery.observe(c, deep=h.get('deep', True)) for c in h['final_configs']]
+            con = sqlite3.connect(str(wn.config.database_path))
+            con.execute('PRAGMA foreign_keys = ON')
+            rec_h['fk_check'] = [list(map(str, r)) for r in con.execute('PRAGMA foreign_key_check')]
+            rec_h['integrity'] = [r[0] for r in con.execute('PRAGMA integrity_check')]
+            con.close()
+        out.append(rec_h)
 json.dump(out, sys.stdout)
